@@ -42,7 +42,8 @@ COMPONENTS_STUB = ["none (private containers are the API's own config=/defaults=
 EXPECTED_PROBES = ["alt_spelling_hit", "with_nested", "with_restored_insert", "with_restored_replace",
                    "defaults_overwrote_stale_default", "defaults_kept_user_value", "refresh_after_set",
                    "device_rejected", "device_accepted", "get_missing_raised", "get_default_used",
-                   "kw_form", "mapping_value_replaced_subtree", "global_arm"]
+                   "kw_form", "mapping_value_replaced_subtree", "global_arm", "device_via_defaults_rejected",
+                   "device_via_defaults_accepted"]
 
 NODES = ["n1", "sec_a", "grp_b_c"]
 LEAVES = ["x", "y", "opt_one", "lim_lo_hi", "verbose"]
@@ -162,7 +163,9 @@ def _gen_op(r, i, kinds, depth=0):
         return {"op": "get", "path": p, "default": r.chance(0.4)}
     if k == "device":
         x = r.pick(ACCEPT_DEV) if r.chance(0.35) else r.pick(REJECT_DEV)
-        return {"op": "device", "x": x, "via": r.pick(["set", "set", "kw", "set_device"])}
+        return {"op": "device", "x": x, "via": r.pick(["set", "set", "kw", "set_device", "defaults",
+                                                       "defaults"]),
+                "extra": r.pick([None, None, "before", "after"]), "tag": 5000 + i}
     raise ValueError(k)
 
 
@@ -334,6 +337,17 @@ def run(plan):
                 viol("state_mismatch", f"after {tag}: {d}", f"state_mismatch:{opkind}")
                 resync()
                 return False
+            # the accumulated defaults (what the next refresh will restore)
+            try:
+                real_defaults = m_merged([norm(copy.deepcopy(x)) for x in dfl])
+            except Exception as e:
+                real_defaults = {"<unmergeable>": repr(e)}
+            d = _first_diff(real_defaults, m_merged(D))
+            if d:
+                viol("defaults_mismatch", f"after {tag}: accumulated defaults differ: {d}",
+                     f"defaults_mismatch:{opkind}")
+                resync()
+                return False
             return True
 
         def build_args(op):
@@ -502,7 +516,14 @@ def run(plan):
                 accept = x in ACCEPT_DEV
                 via = op["via"] if is_global or op["via"] != "set_device" else "set"
                 try:
-                    if via == "set_device":
+                    if via == "defaults":
+                        tree = {"device": _dev(x)}
+                        if op.get("extra") == "before":
+                            tree = {"other_d": -op["tag"], "device": _dev(x)}
+                        elif op.get("extra") == "after":
+                            tree = {"device": _dev(x), "other_d": -op["tag"]}
+                        cm.update_defaults(tree, **rkw)
+                    elif via == "set_device":
                         cm.set_device(_dev(x))
                     elif via == "kw":
                         cm.set(**kw, device=_dev(x))
@@ -521,7 +542,16 @@ def run(plan):
                              "device_accept:value")
                     else:
                         bump(probes, "device_accepted")
-                    m_set(M, ("device",), "cpu")
+                    if via == "defaults":
+                        mt = {"device": "cpu"}
+                        if op.get("extra") == "before":
+                            mt = {"other_d": -op["tag"], "device": "cpu"}
+                        elif op.get("extra") == "after":
+                            mt = {"device": "cpu", "other_d": -op["tag"]}
+                        m_update_defaults(M, D, mt, probes)
+                        bump(probes, "device_via_defaults_accepted")
+                    else:
+                        m_set(M, ("device",), "cpu")
                     n_mut[0] += 1
                 else:
                     if raised is None:
@@ -531,6 +561,8 @@ def run(plan):
                         resync()
                     else:
                         bump(probes, "device_rejected")
+                        if via == "defaults":
+                            bump(probes, "device_via_defaults_rejected")
                         if (now if now is not _ABSENT else None) != (
                                 before if before is not _ABSENT else None):
                             viol("device_changed_by_rejected_request",
